@@ -65,9 +65,19 @@ def run(ctx):
         for n in etms:
             peers.append({'banner': 'SSH-2.0-OpenSSH_9.6', 'kex': ['curve25519-sha256'], 'key': ['ssh-ed25519'], 'enc': ['aes128-cbc'], 'mac': [n], 'client_audit': False})
     peers += [g.peer() for _ in range(60 if q else 1500)]
+    # look-alikes: a name that differs from the marker / a ChaCha20 / CBC / ETM name only by a control character is a different name (no implementation
+    # negotiates it as the marker or as that cipher); the rule applies to the names as sent
+    lookalikes = []
+    for role in (False, True):
+        own = 'kex-strict-c-v00@openssh.com' if role else 'kex-strict-s-v00@openssh.com'
+        for ctl in ('\x7f', '\x07') if q else ('\x7f', '\x07', '\x00', '\x1b', '\x9f'):
+            lookalikes.append({'banner': 'SSH-2.0-OpenSSH_9.6', 'kex': ['curve25519-sha256', own + ctl], 'key': ['ssh-ed25519'], 'enc': ['chacha20-poly1305@openssh.com', 'aes128-ctr'], 'mac': ['hmac-sha2-256'], 'client_audit': role})
+            lookalikes.append({'banner': 'SSH-2.0-OpenSSH_9.6', 'kex': ['curve25519-sha256'], 'key': ['ssh-ed25519'], 'enc': ['aes128-cbc' + ctl, 'aes128-ctr'], 'mac': ['hmac-sha2-256-etm@openssh.com'], 'client_audit': role})
+            lookalikes.append({'banner': 'SSH-2.0-OpenSSH_9.6', 'kex': ['curve25519-sha256'], 'key': ['ssh-ed25519'], 'enc': ['aes128-cbc', 'aes128-ctr'], 'mac': ['hmac-sha2-256-etm@openssh.com' + ctl, 'hmac-sha2-256'], 'client_audit': role})
+    peers += lookalikes
     recs = reportfam.standard(ctx, 0, peers=peers)
     # the same rule end to end: real command line over TCP, server audits and -c client audits (the role decides which marker and which direction counts)
-    recs += reportfam.cli_records(ctx, rng.sample(peers, min(len(peers), 16 if q else 300)))
+    recs += reportfam.cli_records(ctx, rng.sample(peers, min(len(peers), 16 if q else 300)) + lookalikes)
     nontriv = set()
     for r in recs:
         p = r['peer']
